@@ -85,6 +85,9 @@ void do_op(string op, string ctx) {
     "/reg"->put(f[1], o);
     vlog("\"e\":\"Mk\",\"ctx\":" + jq(ctx) + ",\"by\":" + jq(me()) + ",\"ob\":" + jq(f[1]) + ",\"file\":" + jq(f[2]) + ",\"fname\":" + jq(file_name(o)));
     break;
+  case "clr":
+    map_delete(scripts, f[1]);
+    break;
   case "say":
     write(f[1] + "\n");
     break;
